@@ -39,9 +39,18 @@ class C11(Property):
                 for o in [opts] + [x["options"] for x in gen.walk(opts["p"]) if x["k"] == "cmd"]:
                     if rng.random() < 0.7:
                         o["fallback_to_usage"] = True
+            # help texts of several paragraphs: `--help` once prints the short form, twice the full one -- in the child too
+            paras = rng.random() < 0.3
+            if paras:
+                for x in gen.walk(opts["p"]):
+                    if x["k"] in ("flag", "arg") and rng.random() < 0.6:
+                        x["n"]["help"] = "First paragraph of %s.\n\nSecond paragraph, shown only in the detailed form." % x["k"]
             for j in range(3):
                 argv = gen.gen_argv(rng, opts)
                 m = rng.random()
+                if paras and j == 0:
+                    argv.insert(rng.randrange(len(argv) + 1), rng.choice([b"--help", b"-h"]))
+                    m = 1.0
                 if m < 0.3:
                     argv = gen.mutate(rng, argv, opts)
                 elif m < 0.55:
